@@ -126,7 +126,7 @@ SITES = {   # identifier site -> Namer prefix used by gen.random_doc
     'ref_name': 'r', 'group': 'g', 'project': 'p', 'project_key': 'k', 'sticky': 'sn',
     'table_prop_key': 'pk', 'column_prop_key': 'ck', 'type_quoted': 'qt', 'type_schema': 'ts', 'type_name': 'ty',
 }
-SWEEP_FLAVOURS = ['bare', 'upper', 'digit', 'space', 'dash', 'unicode', 'punct'] + \
+SWEEP_FLAVOURS = ['bare', 'upper', 'digit', 'space', 'dash', 'unicode', 'punct', 'bslash'] + \
     ['reserved:' + w for w in gen.RESERVED]
 
 
